@@ -22,9 +22,11 @@ A scenario (JSON-able dict):
                    "out": real entry out resolves to (controls)}: the source path is read after every
                    observable operation and at the fault
   expect_inplace  bool, by construction: out names the file in names (alias) / another file (control)
-  fault    null | {"src": rel, "op": sameFile|openRead|mkTemp|fmt|write|close|replace, "n": k,
-                   "kind": raise|kill, "via": inject|missing|bomb|serialise|badsource,
-                   "remove_fails": bool}
+  fault    null | {"src": rel, "occ": which rewrite of src (0 = first; `in` may match a file more than once),
+                   "op": sameFile|openRead|closeIn|mkTemp|fmt|write|close|replace, "n": k,
+                   "kind": raise|raiseBase|kill, "exc": KeyboardInterrupt|SystemExit|GeneratorExit (raiseBase),
+                   "via": inject|missing|bomb|serialise|badsource,
+                   "remove_fails": bool | "base" (the clean-up's os.remove raises OSError / KeyboardInterrupt)}
 """
 from __future__ import annotations
 
@@ -47,6 +49,8 @@ STEPS = {
     'fileformattoml': ('pypyr.steps.fileformattoml', 'fileFormatToml', 'object', '.toml'),
 }
 KILL_EXIT = 77
+# BaseExceptions that are not Exceptions: what `except Exception:` does not catch
+BASES = {'KeyboardInterrupt': KeyboardInterrupt, 'SystemExit': SystemExit, 'GeneratorExit': GeneratorExit}
 
 # pypyr logs the injected failures at ERROR level; keep them off stderr
 import logging
@@ -214,7 +218,7 @@ class Recorder:
         self.root = os.path.realpath(root)
         self.style = style
         self.fault = fault if fault and fault.get('via', 'inject') in ('inject', 'bomb') else None
-        self.remove_fails = bool(fault and fault.get('remove_fails'))
+        self.remove_fails = (fault or {}).get('remove_fails') or False
         self.kill_fd = kill_fd
         self.events = []
         self.jobs = []
@@ -242,7 +246,15 @@ class Recorder:
     def planned(self, label, n=0):
         f = self.fault
         return bool(f and not self.fired and self.cur is not None and f['src'] == self.cur['src']
+                    and f.get('occ', 0) == self.cur.get('occ', 0)
                     and f['op'] == label and (label not in ('fmt', 'write') or f.get('n', 0) == n))
+
+    def fault_exc(self, label, n, exc):
+        """The exception the planned fault raises: an Exception (`raise`) or a BaseException that is not
+        one (`raiseBase`: KeyboardInterrupt unless the fault names another)."""
+        if self.fault['kind'] == 'raiseBase':
+            return BASES[self.fault.get('exc', 'KeyboardInterrupt')](f'injected {label} {n}')
+        return exc(f'injected fault at {label} {n}')
 
     def hit(self, label, n=0, exc=OSError):
         if self.planned(label, n):
@@ -251,7 +263,12 @@ class Recorder:
             if self.fault['kind'] == 'kill':
                 self.die()
             self.events.append(label + '!')
-            raise exc(f'injected fault at {label} {n}')
+            raise self.fault_exc(label, n, exc)
+
+    def new_job(self, src, out):
+        occ = sum(1 for j in self.jobs if j['src'] == src)
+        self.cur = {'src': src, 'out': out, 'tmp': None, 'chunks': [], 'direct': False, 'occ': occ}
+        self.jobs.append(self.cur)
 
     def die(self):
         if self.kill_fd is not None:
@@ -298,7 +315,7 @@ class OutProxy:
                 self._real.__exit__(None, None, None)
                 rec.events.append('close!')
                 rec.snap()
-                raise OSError('injected fault at close')
+                raise rec.fault_exc('close', 0, OSError)
             self._real.__exit__(None, None, None)
             rec.done('close')
             return False
@@ -323,6 +340,44 @@ class OutProxy:
         return getattr(self._real, a)
 
 
+class InProxy:
+    """Wraps the SOURCE file object (`open(in_path)`): leaving its `with` normally is the modelled `closeIn`
+    operation (StreamRewriter: after the temp file is closed, before the rename; ObjectRewriter: right
+    after load). While an error propagates the file is just closed."""
+
+    def __init__(self, rec, real):
+        self._rec, self._real = rec, real
+
+    def __enter__(self):
+        self._real.__enter__()
+        return self
+
+    def __exit__(self, et, ev, tb):
+        rec = self._rec
+        if et is None:
+            if rec.planned('closeIn'):
+                rec.fired = True
+                if rec.fault['kind'] == 'kill':
+                    rec.die()
+                self._real.__exit__(None, None, None)
+                rec.events.append('closeIn!')
+                rec.snap()
+                raise rec.fault_exc('closeIn', 0, OSError)
+            self._real.__exit__(None, None, None)
+            rec.done('closeIn')
+            return False
+        return self._real.__exit__(et, ev, tb)
+
+    def __iter__(self):
+        return iter(self._real)
+
+    def __next__(self):
+        return next(self._real)
+
+    def __getattr__(self, a):
+        return getattr(self._real, a)
+
+
 @contextlib.contextmanager
 def instrumented(rec):
     import builtins
@@ -336,9 +391,7 @@ def instrumented(rec):
     prev_ntf = vars(fsmod).get('NamedTemporaryFile')
 
     def same(path1, path2):
-        rec.cur = {'src': rec.rel(path1), 'out': rec.rel(path2) if path2 else None, 'tmp': None, 'chunks': [],
-                   'direct': False}
-        rec.jobs.append(rec.cur)
+        rec.new_job(rec.rel(path1), rec.rel(path2) if path2 else None)
         rec.hit('sameFile')
         r = real_same(path1, path2)
         rec.done('sameFile')
@@ -360,8 +413,7 @@ def instrumented(rec):
             return OutProxy(rec, real, 'b' in mode, kw.get('encoding'))
         if rec.cur is None or rec.cur['src'] != rec.rel(file):
             # a rewriter that does not call is_same_file first (mutants): start the job here
-            rec.cur = {'src': rec.rel(file), 'out': None, 'tmp': None, 'chunks': [], 'direct': False}
-            rec.jobs.append(rec.cur)
+            rec.new_job(rec.rel(file), None)
         rec.hit('openRead')
         try:
             real = builtins.open(file, mode, *a, **kw)
@@ -369,7 +421,7 @@ def instrumented(rec):
             rec.done('openRead', False)
             raise
         rec.done('openRead')
-        return real
+        return InProxy(rec, real)
 
     def ntf(*a, **kw):
         rec.hit('mkTemp')
@@ -401,6 +453,8 @@ def instrumented(rec):
         if rec.remove_fails:
             rec.events.append('removeTemp!')
             rec.snap()
+            if rec.remove_fails == 'base':
+                raise KeyboardInterrupt('injected at removeTemp')
             raise OSError('injected fault at removeTemp')
         try:
             r = real_remove(path, *a, **kw)
@@ -517,6 +571,11 @@ def run_step(scn, root, fault=None, inert=False, kill_fd=None):
                 outcome = {'end': 'ok'}
             except Exception as e:
                 outcome = {'end': 'raised', 'exc': type(e).__name__, 'msg': str(e)[:160]}
+            except BaseException as e:     # noqa: BLE001 - an injected KeyboardInterrupt / SystemExit / GeneratorExit
+                if type(e).__name__ == 'CaseTimeout' or not rec.fired or (fault or {}).get('kind') != 'raiseBase' \
+                        and (fault or {}).get('remove_fails') != 'base':
+                    raise
+                outcome = {'end': 'raised', 'exc': type(e).__name__, 'msg': str(e)[:160], 'base': True}
     finally:
         os.chdir(cwd)
     return outcome, rec
@@ -568,15 +627,21 @@ def run_killed(scn, root, fault):
     return outcome, data['events'], data['jobs'], data.get('seen', [])
 
 
-def glob_order(scn, root):
+def glob_order(scn, root, entries=False):
     """Processing order of the matched files: what `glob.glob(..., recursive=True)` (stdlib) yields for
-    this directory, files only — the directory-listing order is an input of the model."""
-    out = []
+    this directory, files only — the directory-listing order is an input of the model. A file matched by
+    several patterns of a list appears once per match (get_glob does not de-duplicate). With `entries`:
+    the directory entry each in path names (symlinked directories resolved, the last component not): it
+    differs from the file read when the in path itself is a symlink."""
+    out, ents = [], []
+    rroot = os.path.realpath(root)
     for p in scn['in']['paths']:
         for m in globmod.glob(os.path.join(root, p), recursive=True):
             if os.path.isfile(m):
-                out.append(os.path.relpath(os.path.realpath(m), os.path.realpath(root)))
-    return out
+                out.append(os.path.relpath(os.path.realpath(m), rroot))
+                ents.append(os.path.relpath(os.path.join(os.path.realpath(os.path.dirname(m)), os.path.basename(m)),
+                                            rroot))
+    return ents if entries else out
 
 
 def canonical_out(scn, src):
@@ -644,6 +709,8 @@ def observe(scn):
         materialise(scn, run_root)
         before = audit(run_root)
         order = glob_order(scn, run_root)
+        in_entries = glob_order(scn, run_root, entries=True)
+        modes_before = {s: os.stat(os.path.join(run_root, s)).st_mode & 0o777 for s in set(order)}
         links = link_table(scn, run_root, order)
         outopt = out_option(scn, run_root)
         names_before = listing(run_root)
@@ -664,7 +731,10 @@ def observe(scn):
             outcome, rec = run_step(scn, run_root, fault)
             events, jobs, seen = rec.events, rec.jobs, rec.seen
         after = audit(run_root)
-        return {'before': before, 'after': after, 'order': order, 'ref': ref, 'outcome': outcome,
+        modes_after = {s: os.stat(os.path.join(run_root, s)).st_mode & 0o777 for s in set(order)
+                       if os.path.exists(os.path.join(run_root, s))}
+        return {'before': before, 'after': after, 'order': order, 'in_entries': in_entries, 'ref': ref,
+                'outcome': outcome, 'modes': {s: [modes_before[s], modes_after.get(s)] for s in modes_before},
                 'events': events, 'jobs': jobs, 'links': links, 'outopt': outopt, 'names_before': names_before,
                 'names_after': listing(run_root), 'seen': seen, 'probe_before': probe_before, 'src_entry': src_entry,
                 'probe_after': read_hex(os.path.join(run_root, probe['path'])) if probe else None}
